@@ -1,0 +1,18 @@
+//go:build verif
+
+// Contracts for the write-log pipe between a node database and its reader (C13). Comment-only.
+package writelog
+
+//@ ghost var GCtxErrs int
+
+//@ func PipeIterator.PutError
+//@   props C13
+//@   requires i != nil
+//@   ensures result == nil && GCtxErrs == old(GCtxErrs) ==> chanSends() == old(chanSends()) + 1
+//@   note the producer is told "delivered" (nil) only after the error was actually put on the queue - however full the queue is, the call waits for room (or for the reader's context to end, in which case what is returned is that context's error - assumed non-nil once Done fired, Go's context contract): an error that is dropped turns a write log that broke off half way into a clean end of stream, i.e. a strict PREFIX of the announced state transition served without an error (seed C13_i added a default branch that gave up when the queue was full). Sequential statement about which branch of the select returns what; scheduling itself is outside the technique
+
+//@ func PipeIterator.Put
+//@   props C13
+//@   requires i != nil
+//@   ensures result == nil && GCtxErrs == old(GCtxErrs) ==> chanSends() == old(chanSends()) + 1
+//@   note an entry is reported as delivered only after it was put on the queue
